@@ -11,6 +11,10 @@
      "sub"  RadioDriver.send_packet(p) returned True             "rcv" receive_packet returned p
      "cfq"  the Crazyflie queued p                               "err" link_error_callback was called
      "rej"  RadioDriver.send_packet returned False (not accepted)
+     "preq" the application calls RadioDriver.pause() (stop(): _sp := True, then join)
+     "pause" pause() has returned (the comm thread is gone)
+     "reboot" the Crazyflie came back as a peer of kind `mode` (while paused)
+     "restart" RadioDriver.restart() has returned: a new comm thread, a new start-up
 
    monitor (the verdict):  the events rebuild the observable history record of SafelinkProps; the
        peer's behaviour (which frames it takes as new, what it answers) is RE-DERIVED here with
@@ -26,7 +30,7 @@ Traces == JsonDeserialize(IOEnv.TRACE_FILE)
 VARIABLES tid, l,
           mh, mpeer, dataPhase, tail, nIn, nRcv, bad, badAt, mach,       \* monitor
           conf, confAt, errOwed,                                         \* conformance
-          retries, negAtt, pc, negLeft, hasSL, hUp, hDown, frame, retryLeft, pend, outQ, inQ,
+          retries, negAtt, pc, sp, nPause, negLeft, hasSL, hUp, hDown, frame, retryLeft, pend, outQ, inQ,
           needsRes, peer, nSub, nQ, lossLeft, negLossLeft, h             \* design-spec variables
 
 T == Traces[tid]
@@ -46,7 +50,7 @@ Bug == "none"
 D == INSTANCE Safelink
 P == INSTANCE SafelinkProps
 
-specvars == <<retries, negAtt, pc, negLeft, hasSL, hUp, hDown, frame, retryLeft, pend, outQ, inQ,
+specvars == <<retries, negAtt, pc, sp, nPause, negLeft, hasSL, hUp, hDown, frame, retryLeft, pend, outQ, inQ,
               needsRes, peer, nSub, nQ, lossLeft, negLossLeft, h>>
 monvars == <<mh, mpeer, dataPhase, tail, nIn, nRcv>>
 Ev == T.ev[l]
@@ -70,7 +74,7 @@ Conform(A) == IF conf /\ ENABLED A
 \* monitor bookkeeping: first failing clause sticks
 Judge(hn) == LET c == P!StepClause(hn, T.retries) IN
              IF bad = "ok" /\ c # "ok" THEN bad' = c /\ badAt' = l ELSE UNCHANGED <<bad, badAt>>
-Freeze(s, p) == IF mh.failed THEN s ELSE P!AddPkt(s, p)
+Freeze(s, p) == IF P!Frozen(mh) THEN s ELSE P!AddPkt(s, p)
 
 StOK == /\ hUp = Ev.st[1] /\ hDown = Ev.st[2] /\ hasSL = (Ev.st[3] = 1)
         /\ retryLeft = Ev.st[4] /\ needsRes = (Ev.st[5] = 1)
@@ -136,13 +140,36 @@ MErr == /\ Ev.e = "err"
         /\ errOwed' = FALSE
         /\ Conform(errOwed /\ UNCHANGED specvars)
 
+\* ---------------------------------------------------------------- pause() / restart()
+MPreq == /\ Ev.e = "preq"
+         /\ LET hn == [mh EXCEPT !.closed = TRUE] IN mh' = hn /\ Judge(hn)
+         /\ UNCHANGED <<mpeer, dataPhase, tail, nIn, nRcv, mach, errOwed>>
+         /\ Conform(D!PauseReq)
+
+\* the thread ended in the step that reached the loop top with _sp set; pause() returning is no step
+\* of the design spec, but by then the spec must agree that there is no comm thread
+MPause == /\ Ev.e = "pause"
+          /\ UNCHANGED <<monvars, bad, badAt, mach, errOwed>>
+          /\ Conform(pc = "paused" /\ UNCHANGED specvars)
+
+MReboot == /\ Ev.e = "reboot"
+           /\ mpeer' = P!PeerInit(Ev.mode, T.tail, T.deny)
+           /\ UNCHANGED <<mh, dataPhase, tail, nIn, nRcv, bad, badAt, mach, errOwed>>
+           /\ Conform(D!Reboot(Ev.mode))
+
+MRestart == /\ Ev.e = "restart"
+            /\ LET hn == P!SessionReset(mh) IN mh' = hn /\ Judge(hn)
+            /\ dataPhase' = FALSE
+            /\ UNCHANGED <<mpeer, tail, nIn, nRcv, mach, errOwed>>
+            /\ Conform(D!Restart)
+
 \* send_packet returned False: the packet was not accepted, nothing to record
 MRej == /\ Ev.e = "rej"
         /\ UNCHANGED <<monvars, bad, badAt, mach, errOwed, specvars, conf, confAt>>
 
 Step == /\ l <= Len(T.ev)
         /\ l' = l + 1 /\ UNCHANGED tid
-        /\ (MTx \/ MIn \/ MOg \/ MSub \/ MRcv \/ MCfq \/ MErr \/ MRej)
+        /\ (MTx \/ MIn \/ MOg \/ MSub \/ MRcv \/ MCfq \/ MErr \/ MRej \/ MPreq \/ MPause \/ MReboot \/ MRestart)
 
 \* end of trace.  T.fin: quiet = every application sender has returned and the radio loop is
 \* parked at its next transmission; inq = len(in_queue) (cross-checked against the events)
